@@ -265,6 +265,47 @@ def work(item):
                 okp = False
         if okp:
             hold('%s nx=%d: i<=nx-2, x_i<=x<=x_{i+1}, throws iff x outside the range (%d paths)' % (kind, nx, len(ps)))
+    elif kind == 'geti-seq':
+        # state carried between lookups: lookup on grid 1, re-grid, lookup on grid 2 -- the second answer must bracket x2 in grid 2
+        g1, g2 = sym_vec('g', nx), sym_vec('q', nx)
+        x1, x2 = T.var('x1'), T.var('x2')
+        pre = [T.fcmp('olt', g1[k], g1[k + 1]) for k in range(nx - 1)] + [T.fcmp('olt', g2[k], g2[k + 1]) for k in range(nx - 1)]
+        ps = h.run('h_geti_seq', [I(nx), Buf('grid1', g1), D(x1), Buf('grid2', g2), D(x2), I(0), IBuf('idx', [None])], prepare=lambda ex, st, bufs: st.pc.extend(pre))
+        exstats.append(h.last_ex.stats)
+        okp = True
+        names = ['g%d' % k for k in range(nx)] + ['q%d' % k for k in range(nx)] + ['x1', 'x2']
+        for p in ps:
+            if p.status != 'ok' or p.ret not in (0, 1):
+                cand('geti-seq:nx=%d:error' % nx, 'lookup / re-grid / lookup ends in %s %r' % (p.status, p.info), seq=True)
+                okp = False
+                continue
+            conv = S.Conv('real')
+            zq = [zc(conv, v) for v in g2]
+            zx = conv.conv(x2)
+            inside = z3.And(zx >= zq[0], zx <= zq[-1])
+            if p.ret == 1:
+                viol = inside
+            else:
+                idx = p.out('idx')[0]
+                if isinstance(idx, Term):
+                    zi = conv.conv(idx)
+                    good = z3.Or([z3.And(zi == k, zq[k] <= zx, zx <= zq[k + 1]) for k in range(nx - 1)])
+                elif idx is None or idx > nx - 2:
+                    good = z3.BoolVal(False)
+                else:
+                    good = z3.And(zq[idx] <= zx, zx <= zq[idx + 1])
+                viol = z3.Or(z3.Not(inside), z3.Not(good))
+            r, m, _ = solver.check(p.pc, conv=conv, extra=[viol], want_model=True, label='lookup, re-grid, lookup (nx=%d): the second answer is decided by the new grid only' % nx)
+            if r == 'sat':
+                cand('geti-seq:nx=%d' % nx, 'after a lookup and a replacement of the grid, Get_i %s' % ('throws for x inside the new node range' if p.ret == 1 else 'returns an index that does not bracket x in the new grid (or accepts x outside it)'),
+                     input=modelvals(m, conv, names), seq=True)
+                okp = False
+                break
+            elif r != 'unsat':
+                out['undecided'].append('geti-seq nx=%d' % nx)
+                okp = False
+        if okp:
+            hold('lookup on one grid, re-grid, lookup: second answer brackets x in the new grid / throws iff outside, nx=%d (%d paths)' % (nx, len(ps)))
     out.update(worker_result(solver, exstats, functions=FUNCS))
     return out
 
@@ -273,6 +314,17 @@ def replay(chk, h, c):
     kind, nx = c['kind'], c['nx']
     chk.cov['replayed'] += 1
     inp = {k: float(Fraction(v)) for k, v in c.get('input', {}).items()}
+    if c.get('seq'):
+        g1 = [inp.get('g%d' % k, float(k)) for k in range(nx)]
+        g2 = [inp.get('q%d' % k, float(k) + 0.5) for k in range(nx)]
+        x1, x2 = inp.get('x1', g1[0]), inp.get('x2', g2[0])
+        ret, o = h.native('h_geti_seq', [I(nx), Buf('grid1', g1), D(x1), Buf('grid2', g2), D(x2), I(0), IBuf('idx', [0])])
+        inside = g2[0] <= x2 <= g2[-1]
+        if ret == 1:
+            return inside, 1.0
+        i = o['idx'][0]
+        c['native'] = {'grid1': g1, 'x1': x1, 'grid2': g2, 'x2': x2, 'returned': i}
+        return (not inside) or i > nx - 2 or not (g2[i] <= x2 <= g2[i + 1]), 1.0
     if c.get('ends'):
         # battery of end points on exactly representable and awkward ranges: a and b accepted (last interval for b), their outer neighbours rejected
         for (a_, b_) in ((0.001, 1.0), (1.5, 7.3), (0.1, 1.0), (1.0, 10.0), (0.01, 100.0), (1.0, 1000.0), (-3.0, 7.5), (0.0, 1.0)):
@@ -396,6 +448,8 @@ def main(tier):
     items = []
     for nx in nxs:
         items += [('lin', nx, tier), ('log', nx, tier), ('geti-lin', nx, tier), ('geti-sorted', nx, tier)]
+        if nx <= (5 if tier == 'quick' else 8):
+            items.append(('geti-seq', nx, tier))
     for nx in range(2, 7):
         items.append(('user', nx, tier))
     with Pool(min(16, os.cpu_count() or 1)) as pool:
